@@ -223,6 +223,27 @@ def jobs(tier, seed):
     return out
 
 
+import re as _re
+# two-operand packed / scalar operations whose result depends on the old destination (SDM): arithmetic, logic, compare, pack / unpack,
+# shifts, shuffles of two sources, horizontal ops, insertions.  Pure moves, conversions and unary operations are NOT listed.
+DST_READ = _re.compile(r'^(#p#(add|sub|mul|madd|and|or|xor|cmp|unpck|ack|max|min|avg|sad|sign|hadd|hsub|sll|srl|sra|insr|alignr|shufb|blend)'
+                       r'|(add|sub|mul|div|and|andn|or|xor|max|min|cmp|unpck[lh]|hadd|hsub|addsub|shuf|sqrts|rcps|rsqrts)#?[ps]?)')
+
+
+def dst_is_read(i):
+    """does the processor's result depend on the initial value of the destination operand?"""
+    name = i.m.name
+    afs = E.A.x86_afs
+    regreg = all(isinstance(a, dict) and not a.get(afs.ad) for a in i.arg[:2])
+    if name == 'mov#ups#':
+        # f3 / f2 forms are movss / movsd: register-to-register they replace the low element only
+        return (0xF3 in i.prefix or 0xF2 in i.prefix) and regreg
+    if name in ('mov#lps#', 'mov#hps#'):
+        # unprefixed / 66 loads replace one half of the destination register
+        return not (0xF3 in i.prefix or 0xF2 in i.prefix) and isinstance(i.arg[0], dict) and not i.arg[0].get(afs.ad)
+    return bool(DST_READ.match(name))
+
+
 FLAG_WRITERS = ('comis#s#', 'ucomis#s#', '#p#test')      # write zf, pf, cf (and clear of, nf, af): SDM vol. 2
 
 
@@ -259,6 +280,9 @@ def sse_missing(i, affs):
     elif isinstance(src, (X.ExprId, X.ExprSlice)):
         for n in ids_of(src) - rn:
             out.append(('sse-omitted-read:source-register', 'source register %s is not in the read set' % n))
+    if dst_is_read(i) and isinstance(dst, (X.ExprId, X.ExprSlice)):
+        for n in ids_of(dst) - rn:
+            out.append(('sse-omitted-read:destination-register', 'the result depends on the old value of the destination register %s, which is not in the read set' % n))
     if isinstance(dst, X.ExprMem):
         for n in ids_of(dst.arg) - rn:
             out.append(('sse-omitted-read:address-register', 'register %s of the destination address is not in the read set' % n))
@@ -445,6 +469,9 @@ from miasmx.arch.ia32_arch import x86mnemo
 import miasmx.arch.ia32_sem as SEM, miasmx.tools.emul_helper as EH, miasmx.expression.expression as X, miasmx.tools.modint as M
 from vf.checks import c08
 c08.X = X; c08.SEM = SEM
+from vf.x86 import explore as E
+import miasmx.arch.ia32_arch as A_
+E.A = A_
 D = %(data)r
 i = x86mnemo.dis(bytes(D['bytes']) + b'\x90' * 4)
 affs = EH.get_instr_expr(i, X.ExprInt(M.uint32(i.l)), [])
